@@ -501,7 +501,7 @@ Definition m_mapcar (c : call) : res :=
 
 (* ==== reduce.go ====================================================================================== *)
 (* :end first (0 <= end <= len), then :start against the shortened list (0 <= start < len), then
-   :key over the elements (written back into the list), then the fold; an empty list gives the
+   :key over the elements (into a fresh list of keys: the argument is left alone), then the fold; an empty list gives the
    initial value or the Go nil *)
 Definition m_reduce_list (c : call) (l : list Z) : res :=
   match (match c_end c with None => Some l | Some e => if (e <=? length l)%nat then Some (firstn e l) else None end) with
